@@ -171,12 +171,43 @@ func reshape(r *rng, a any, salt int) any {
 	return mk(t).Elem().Interface()
 }
 
+// enlargeArgs: the same arguments with every non-empty slice argument stretched to a few hundred
+// elements (element i is a copy of element i mod len, rotated by salt): nil when no argument is such a
+// slice.
+func enlargeArgs(args []any, salt int) []any {
+	var out []any
+	found := false
+	for _, a := range args {
+		if a == nil {
+			out = append(out, a)
+			continue
+		}
+		v := reflect.ValueOf(a)
+		if v.Kind() == reflect.Slice && v.Len() > 0 {
+			n := 300 + 17*salt
+			s := reflect.MakeSlice(v.Type(), n, n)
+			for i := 0; i < n; i++ {
+				s.Index(i).Set(v.Index((i + salt) % v.Len()))
+			}
+			out = append(out, s.Interface())
+			found = true
+		} else {
+			out = append(out, a)
+		}
+	}
+	if !found {
+		return nil
+	}
+	return out
+}
+
 type determStats struct {
 	Cases      int            `json:"cases"`
 	Prepared   int            `json:"prepared"`
 	Results    map[string]int `json:"result_kinds"`
 	Reshaped   int            `json:"second_argument_shape_differs"`
 	Concurrent int            `json:"concurrent_groups"`
+	BigSlices  int            `json:"concurrent_groups_with_long_slices"`
 	Runs       int            `json:"runs"`
 	Samples    []string       `json:"samples"`
 }
@@ -205,6 +236,11 @@ func cmdDeterm(args []string) int {
 			b, _ := json.Marshal(violation{p, name, hx(q), detail})
 			w.Write(append(b, '\n'))
 		}
+	}
+	viol2 := func(prop, name, q, detail string) {
+		nviol++
+		b, _ := json.Marshal(violation{prop, name, hx(q), detail})
+		w.Write(append(b, '\n'))
 	}
 	go watchdogFor("C16", "concurrent-or-repeated-use-hangs", func(v violation) {
 		nviol++
@@ -348,6 +384,48 @@ func cmdDeterm(args []string) int {
 			st.Runs += 8
 			if bad != "" {
 				viol("concurrent-use-differs", c.query, bad)
+			}
+		}
+		// concurrent binds of one Statement with long slices of different contents: every call must
+		// get the elements of its own slice, in order
+		if big := enlargeArgs(argsA, 0); big != nil && st.Cases%2 == 0 {
+			st.BigSlices++
+			const ng = 6
+			var bigArgs [ng][]any
+			var want [ng]string
+			for gi := 0; gi < ng; gi++ {
+				bigArgs[gi] = enlargeArgs(argsA, gi)
+				want[gi] = runOnce(stmt1, bigArgs[gi])
+			}
+			var wg sync.WaitGroup
+			var mu sync.Mutex
+			bad := ""
+			for gi := 0; gi < ng; gi++ {
+				wg.Add(1)
+				go func(gi int) {
+					defer wg.Done()
+					defer func() {
+						if rec := recover(); rec != nil {
+							mu.Lock()
+							bad = "panic in goroutine: " + fmt.Sprint(rec)
+							mu.Unlock()
+						}
+					}()
+					for k := 0; k < 4; k++ {
+						if got := runOnce(stmt1, bigArgs[gi]); got != want[gi] {
+							mu.Lock()
+							bad = "want " + trunc(want[gi], 300) + "  got " + trunc(got, 300)
+							mu.Unlock()
+							return
+						}
+					}
+				}(gi)
+			}
+			wg.Wait()
+			st.Runs += ng * 5
+			if bad != "" {
+				viol("concurrent-use-differs", c.query, "long slices: "+bad)
+				viol2("C03", "concurrent-use-differs", c.query, "long slices: "+bad)
 			}
 		}
 		caseStart.Store(0)
